@@ -4,6 +4,8 @@ import DryocVerif.Model.Sign
 import DryocVerif.Model.EncodingStruct
 import DryocVerif.Proofs.EncodingExtra
 import DryocVerif.Proofs.EncodingVecExtra
+import DryocVerif.Proofs.EncodingObjExtra
+import DryocVerif.Proofs.KeyFormsSeed
 import DryocVerif.Properties.C01
 /-
 C16 — byte and serde encodings round-trip and enforce fixed lengths.
@@ -15,14 +17,34 @@ signed messages, and the decoded object still decrypts / verifies.
 Defect E13 (pre-fix visitors) is kept as counter-models `deFixedOld`, `deHeapOld`, `deLockedArrOld`.
 
 SCOPE of the fixed-length statements: `deBox` / `deSigned` hard-wire `deFixed 16 / 64 / 32`, i.e. the visitors of
-/repo/src/bytes_serde.rs, which is what the derived `Deserialize` uses when the field's container TYPE carries the
-length (`StackByteArray<N>`, `HeapByteArray<N>`, `Locked<…>`).  The structs are generic, and `Vec<u8>` is a
-`ByteArray<N>` for every `N` too: for `DryocSecretBox<Vec<u8>, _>`, `SignedMessage<Vec<u8>, _>`, … serde's OWN
-`Vec<u8>` visitor is used, which has no length check.  The last section ("`Vec<u8>` as a fixed-length container")
-models that cell (`deVecFixed`), shows it is NOT strict, makes the struct round trips parametric in the container
-kind, and states what the object API then does with a tag / signature of another length (panic or prefix view).
+/repo/src/bytes_serde.rs.  That file implements `Deserialize` for exactly FOUR containers: `StackByteArray<N>`,
+`Locked<HeapByteArray<N>>` (visitor `deFixed N`), `HeapBytes`, `LockedBytes` = `Locked<HeapBytes>` (visitor `deHeap`)
+— `Kind.typed`.  SERIALIZE ONLY (they can be written, never read back; a struct instantiated with them has no
+`Deserialize`): unlocked `HeapByteArray<N>` and `LockedRO<HeapBytes>`.  The structs are generic, and two more kinds
+of container are `ByteArray<N>` for serde's OWN impls: `Vec<u8>` (a `ByteArray<N>` for every `N`; serde's `Vec<T>`
+visitor, no length check: `Kind.vec`, `deVecFixed`) and plain `[u8; N]` (what the classic `PublicKey`, `Nonce`, `Mac`
+… aliases are; serde's tuple impl, a sequence of exactly `N` elements, no length prefix in bincode, implemented only
+for N ≤ 32: `Kind.array`, `deArray`).  The section "`Vec<u8>` as a fixed-length container" shows `deVecFixed` is NOT
+strict, makes the struct round trips parametric in the container kind, and states what the object API then does with
+a tag / signature of another length (panic or prefix view).
+FORMATS: `ser` / `serField` are the token given to the serializer (`serialize_bytes` → a byte string: the bincode
+shape).  serde_json renders `serialize_bytes` as a JSON ARRAY, which is read back as an element sequence:
+`serField'` (format-aware) and the round trips `deBoxK_serBoxK'`, `deSignedK_serSignedK'`, `dePairK_serPairK'`.
+JSON STRINGS: through the text deserialiser (`from_str` / `from_slice`) a string reaches `visit_bytes` (`Enc.bytes`);
+through `serde_json::from_value` it reaches `visit_string`, which dryoc's visitors do not implement → an error for
+every container (`json_routes`).  The runner exercises arrays on both routes (`json`, `jsonval`) and strings on the
+text route only (`jsonstr`); a string through `from_value` is NOT exercised.
 The serialisers `Model.SecretBox.toBytes`, `Model.Sign.toBytes`, `intoVec` are TOTAL; the Rust `to_bytes` panics on
 a tag / signature container of another length: `toBytesRaw`, `signedToBytesRaw`, `intoVecRaw` in the same section.
+OBJECTS: `PwHash` / `Config`, `Kdf`, kx `Session`, `KeyPair` / `SigningKeyPair` (`from_slices`, `from_seed`) are in
+the last section; a decoded `Config` is NOT validated (`dePw_accepts_inconsistent_config`).
+EXECUTION: the driver (`Driver/Serde.lean`, `serde_obj`, model column) RUNS the struct-level models on the object of
+each request — `deBoxK ∘ serBoxK'` at (typed, typed, vec) then `toBytesRaw` (and `intoVecRaw`), `deSignedK ∘
+serSignedK'` at (typed, vec) then `signedToBytesRaw`, `dePairK ∘ serPairK'` at (typed, typed), `deSession`, `deKdf`,
+`dePw`; `tryfrom keypair / signkeypair` run `fromSlices .typed .typed`.  NOT executed by the driver (tied to the code
+only through the container-level requests `serde_fixed`, `serde_bytes`, `tryfrom` they are composed of, and through
+the proofs): the all-typed `deBox` / `deSigned` / `dePair` (a `LockedBox` &c. is not among the runner's objects),
+`Kind.array`, `Kind.vec` in a fixed-length position (`deVecFixed n`), `deJson`, `signFromSeedObj`.
 -/
 namespace DryocVerif.Properties.C16
 open DryocVerif DryocVerif.Model.Encoding
@@ -339,16 +361,82 @@ theorem structK_typed (sd : Bool) (e : EncBox) (b : Box) (es : EncSigned) (sm : 
   ⟨rfl, rfl, rfl, rfl⟩
 
 /-- **`de ∘ ser = id` on a box struct, for every choice of container kinds** (`kE`, `kT`, `kD`: ephemeral key, tag,
-data; `.typed` = stack / heap / locked, `.vec` = `Vec<u8>`) and both kinds of format: the length hypotheses are
-needed ONLY for the fields held in a typed container — a `Vec<u8>` field round-trips at any length. -/
-theorem deBoxK_serBoxK (kE kT kD : Kind) (sd : Bool) (b : Box) (ht : kT = .typed → b.tag.length = 16)
-    (he : kE = .typed → ∀ e, b.epk = some e → e.length = 32) :
+data; `.typed` = `StackByteArray` / `Locked<HeapByteArray>` / `HeapBytes` / `LockedBytes`, `.vec` = `Vec<u8>`,
+`.array` = `[u8; N]`) and both kinds of format: the length hypotheses are needed ONLY for the fields held in a
+length-checking container — a `Vec<u8>` field round-trips at any length.
+STATEMENT CHANGED (with the new kind `Kind.array`): the hypotheses were `kT = .typed → …`, `kE = .typed → …`; they are
+now `kT ≠ .vec → …`, `kE ≠ .vec → …` (the same for the two old kinds; an array field needs its length too).
+`ser` here is the serializer token (bincode shape); through the format's rendering: `deBoxK_serBoxK'`. -/
+theorem deBoxK_serBoxK (kE kT kD : Kind) (sd : Bool) (b : Box) (ht : kT ≠ .vec → b.tag.length = 16)
+    (he : kE ≠ .vec → ∀ e, b.epk = some e → e.length = 32) :
     deBoxK kE kT kD sd (serBoxK kE kT kD b) = .ok b :=
   Proofs.EncodingVecExtra.deBoxK_serBoxK kE kT kD sd b ht he
 
+/-- STATEMENT CHANGED: hypothesis `kS = .typed → …` is now `kS ≠ .vec → …` (see `deBoxK_serBoxK`) -/
 theorem deSignedK_serSignedK (kS kM : Kind) (sd : Bool) (sm : Bytes × Bytes)
-    (h : kS = .typed → sm.1.length = 64) : deSignedK kS kM sd (serSignedK kS kM sm) = .ok sm :=
+    (h : kS ≠ .vec → sm.1.length = 64) : deSignedK kS kM sd (serSignedK kS kM sm) = .ok sm :=
   Proofs.EncodingVecExtra.deSignedK_serSignedK kS kM sd sm h
+
+/-- **the same round trips THROUGH THE FORMAT'S RENDERING** (`serBoxK'` / `serSignedK'`, `sd` = serde_json or
+bincode): on serde_json every field — dryoc's containers included, whose `serialize_bytes` becomes a JSON array —
+is read back through `visit_seq`; on bincode dryoc's containers come back through `visit_bytes` -/
+theorem deBoxK_serBoxK' (kE kT kD : Kind) (sd : Bool) (b : Box) (ht : kT ≠ .vec → b.tag.length = 16)
+    (he : kE ≠ .vec → ∀ e, b.epk = some e → e.length = 32) :
+    deBoxK kE kT kD sd (serBoxK' kE kT kD sd b) = .ok b :=
+  Proofs.EncodingVecExtra.deBoxK_serBoxK' kE kT kD sd b ht he
+
+theorem deSignedK_serSignedK' (kS kM : Kind) (sd : Bool) (sm : Bytes × Bytes)
+    (h : kS ≠ .vec → sm.1.length = 64) : deSignedK kS kM sd (serSignedK' kS kM sd sm) = .ok sm :=
+  Proofs.EncodingVecExtra.deSignedK_serSignedK' kS kM sd sm h
+
+/-- what the format-aware field serialiser is, and that on bincode it is the token-level one -/
+theorem serField'_cases (k : Kind) (bs : Bytes) :
+    serField' k true bs = .seq bs ∧ serField' k false bs = serField k bs ∧
+    serField' .typed false bs = .bytes bs ∧ serField' .vec false bs = .seq bs ∧ serField' .array false bs = .seq bs :=
+  ⟨by cases k <;> rfl, Proofs.EncodingVecExtra.serField'_bincode k bs, rfl, rfl, rfl⟩
+
+/-- non-vacuity witnesses: the default `VecBox` (typed tag, `Vec<u8>` data) as serde_json writes it — two JSON arrays —
+decodes; as the serializer TOKEN (`serBoxK`, a byte string for the tag) it decodes as well (text route: `visit_bytes`);
+an all-array box needs its 16 / 32 elements -/
+example : serBoxK' .typed .typed .vec true ⟨none, zeros 16, [9]⟩ = ⟨none, .seq (zeros 16), .seq [9]⟩ ∧
+    deBoxK .typed .typed .vec true ⟨none, .seq (zeros 16), .seq [9]⟩ = .ok ⟨none, zeros 16, [9]⟩ ∧
+    deBoxK .typed .typed .vec false (serBoxK' .typed .typed .vec false ⟨none, zeros 16, [9]⟩) = .ok ⟨none, zeros 16, [9]⟩ ∧
+    deBoxK .array .array .vec true (serBoxK' .array .array .vec true ⟨some (zeros 32), zeros 16, [9]⟩)
+      = .ok ⟨some (zeros 32), zeros 16, [9]⟩ ∧
+    deBoxK .array .array .vec true (serBoxK' .array .array .vec true ⟨none, zeros 15, [9]⟩) = .err := by decide
+
+/-! #### plain arrays `[u8; N]` (serde's tuple impl) -/
+
+/-- **`[u8; n]` decodes exactly the element sequences of length `n`** (a byte / string token is refused) — strict like
+`deFixed`, but on sequences only; never a panic.  `n ≤ 32` only: serde has no array impl beyond 32. -/
+theorem deArray_ok_iff (n : Nat) (e : Enc) (a : Bytes) : deArray n e = .ok a ↔ e = .seq a ∧ a.length = n :=
+  Proofs.EncodingVecExtra.deArray_ok_iff n e a
+
+theorem deArray_never_panics (n : Nat) (e : Enc) : deArray n e ≠ .panic :=
+  Proofs.EncodingVecExtra.deArray_never_panics n e
+
+example : deArray 4 (.seq [1, 2, 3, 4]) = .ok [1, 2, 3, 4] ∧ deArray 4 (.seq [1, 2, 3]) = .err ∧
+    deArray 4 (.seq [1, 2, 3, 4, 5]) = .err ∧ deArray 4 (.bytes [1, 2, 3, 4]) = .err := by decide
+
+/-! #### the JSON routes -/
+
+/-- **`from_str` vs `from_value` on a JSON string of the right length**: the text deserialiser hands it to
+`visit_bytes` (accepted), `from_value` to `visit_string` (refused by every dryoc visitor); JSON arrays are accepted on
+both routes.  The runner exercises the array on both routes and the string on the text route; the string through
+`from_value` is not exercised. -/
+theorem json_routes (n : Nat) (s : Bytes) (h : s.length = n) :
+    deJson (deFixed n) .text (.str s) = .ok s ∧ deJson (deFixed n) .value (.str s) = .err ∧
+    deJson (deFixed n) .text (.arr s) = .ok s ∧ deJson (deFixed n) .value (.arr s) = .ok s ∧
+    deJson deHeap .text (.str s) = .ok s ∧ deJson deHeap .value (.str s) = .err :=
+  Proofs.EncodingObjExtra.json_routes n s h
+
+/-- whatever the visitor: a string through `from_value` is an error, an array reaches `visit_seq` on both routes -/
+theorem deJson_value_str_err (de : Enc → Outcome Bytes) (r : Route) (s es : Bytes) :
+    deJson de .value (.str s) = .err ∧ deJson de r (.arr es) = de (.seq es) :=
+  ⟨rfl, Proofs.EncodingObjExtra.deJson_arr de r es⟩
+
+example : (zeros 24).length = 24 ∧ deJson (deFixed 24) .value (.str (zeros 24)) = .err ∧
+    deJson (deFixed 24) .text (.str (zeros 24)) = .ok (zeros 24) := by decide
 
 /-- non-vacuity witnesses: an all-`Vec` box with a 3-byte tag round-trips; a typed tag needs its 16 bytes -/
 example : deBoxK .vec .vec .vec true (serBoxK .vec .vec .vec ⟨none, [1, 2, 3], [9]⟩) = .ok ⟨none, [1, 2, 3], [9]⟩ ∧
@@ -503,11 +591,18 @@ theorem dePair_ok_iff (n m : Nat) (e : EncPair) (p : Bytes × Bytes) :
 theorem dePair_never_panics (n m : Nat) (e : EncPair) : dePair n m e ≠ .panic :=
   Proofs.EncodingVecExtra.dePair_never_panics n m e
 
-/-- with `Vec<u8>` fields the pair round-trips at any length (and, as for the boxes, nothing is checked) -/
+/-- with `Vec<u8>` fields the pair round-trips at any length (and, as for the boxes, nothing is checked).
+STATEMENT CHANGED: hypotheses `kᵢ = .typed → …` are now `kᵢ ≠ .vec → …` (see `deBoxK_serBoxK`). -/
 theorem dePairK_serPairK (k₁ k₂ : Kind) (sd : Bool) (n m : Nat) (p : Bytes × Bytes)
-    (h1 : k₁ = .typed → p.1.length = n) (h2 : k₂ = .typed → p.2.length = m) :
+    (h1 : k₁ ≠ .vec → p.1.length = n) (h2 : k₂ ≠ .vec → p.2.length = m) :
     dePairK k₁ k₂ sd n m (serPairK k₁ k₂ p) = .ok p :=
   Proofs.EncodingVecExtra.dePairK_serPairK k₁ k₂ sd n m p h1 h2
+
+/-- … and through the format's rendering -/
+theorem dePairK_serPairK' (k₁ k₂ : Kind) (sd : Bool) (n m : Nat) (p : Bytes × Bytes)
+    (h1 : k₁ ≠ .vec → p.1.length = n) (h2 : k₂ ≠ .vec → p.2.length = m) :
+    dePairK k₁ k₂ sd n m (serPairK' k₁ k₂ sd p) = .ok p :=
+  Proofs.EncodingVecExtra.dePairK_serPairK' k₁ k₂ sd n m p h1 h2
 
 /-- non-vacuity witnesses: a signing key pair round-trips; a 63-byte secret key is refused by the typed visitor and
 accepted by the `Vec<u8>` one; a kdf context given as a JSON array decodes -/
@@ -516,6 +611,152 @@ example : dePair 32 64 (serPair (zeros 32, zeros 64)) = .ok (zeros 32, zeros 64)
     dePairK .typed .vec true 32 64 ⟨.bytes (zeros 32), .seq (zeros 63)⟩ = .ok (zeros 32, zeros 63) ∧
     dePair 32 8 ⟨.bytes (zeros 32), .seq [1, 2, 3, 4, 5, 6, 7, 8]⟩ = .ok (zeros 32, [1, 2, 3, 4, 5, 6, 7, 8]) := by
   decide
+
+/-! #### `from_slices` (keypair.rs, sign.rs) -/
+
+/-- **`KeyPair::from_slices` (32, 32) / `SigningKeyPair::from_slices` (32, 64) with typed containers**: `Ok` iff BOTH
+slices have exactly their container's length, and then the pair holds exactly the two slices (no padding, no
+truncation).  This is what the driver's `tryfrom keypair` / `tryfrom signkeypair` answers run. -/
+theorem fromSlices_typed_ok_iff (n m : Nat) (a b : Bytes) (p : Bytes × Bytes) :
+    fromSlices .typed .typed n m a b = .ok p ↔ (a.length = n ∧ b.length = m) ∧ p = (a, b) :=
+  Proofs.EncodingVecExtra.fromSlices_typed_ok_iff n m a b p
+
+/-- failure half, and no panic; the public key is converted first -/
+theorem fromSlices_typed_err_iff (n m : Nat) (a b : Bytes) :
+    (fromSlices .typed .typed n m a b = .err ↔ ¬ (a.length = n ∧ b.length = m)) ∧
+    fromSlices .typed .typed n m a b ≠ .panic ∧
+    (a.length ≠ n → ∀ k₂, fromSlices .typed k₂ n m a b = .err) :=
+  ⟨(Proofs.EncodingVecExtra.fromSlices_typed_err_iff n m a b).1,
+    (Proofs.EncodingVecExtra.fromSlices_typed_err_iff n m a b).2,
+    fun h k₂ => Proofs.EncodingVecExtra.fromSlices_pk_first k₂ n m a b h⟩
+
+/-- **with `Vec<u8>` containers `from_slices` is NOT strict**: `TryFrom<&[u8]> for Vec<u8>` is std's blanket impl over
+the infallible `From<&[u8]>` — ANY two slices are accepted -/
+theorem fromSlices_vec_not_strict (n m : Nat) (a b : Bytes) : fromSlices .vec .vec n m a b = .ok (a, b) := rfl
+
+/-- plain arrays are strict like the typed containers (std's `TryFrom<&[u8]> for [u8; N]`) -/
+theorem fromSlices_array_eq (n m : Nat) (a b : Bytes) :
+    fromSlices .array .array n m a b = if a.length = n ∧ b.length = m then .ok (a, b) else .err :=
+  Proofs.EncodingVecExtra.fromSlices_strict_eq .array .array (by decide) (by decide) n m a b
+
+example : fromSlices .typed .typed 32 64 (zeros 32) (zeros 64) = .ok (zeros 32, zeros 64) ∧
+    fromSlices .typed .typed 32 64 (zeros 33) (zeros 64) = .err ∧
+    fromSlices .typed .typed 32 64 (zeros 32) (zeros 63) = .err ∧
+    fromSlices .vec .vec 32 64 [1] [] = .ok ([1], []) := by decide
+
+/-! #### `SigningKeyPair::from_seed` on an untyped seed container -/
+
+/-- **`from_seed(&seed)` with `Seed = Vec<u8>` / `&[u8]`** (`seed.as_array()`): a PANIC iff fewer than 32 bytes, never
+an error, the key pair of the FIRST 32 bytes otherwise, and the typed model at exactly 32 bytes -/
+theorem signFromSeedObj_cases (H : Bytes → Bytes) (seed : Bytes) :
+    (Model.KeyForms.signFromSeedObj H seed = .panic ↔ seed.length < 32) ∧
+    Model.KeyForms.signFromSeedObj H seed ≠ .err ∧
+    (32 ≤ seed.length →
+      Model.KeyForms.signFromSeedObj H seed = .ok (Model.Sign.seedKeypair H (seed.take 32))) ∧
+    (seed.length = 32 → Model.KeyForms.signFromSeedObj H seed = .ok (Model.Sign.seedKeypair H seed)) :=
+  Proofs.KeyFormsSeed.signFromSeedObj_cases H seed
+
+/-- … which is what `crypto_sign_seed_keypair_inplace` leaves in the two fresh output containers -/
+theorem signFromSeedObj_eq_inplace (H : Bytes → Bytes) (seed : Bytes) (h : 32 ≤ seed.length) :
+    Model.KeyForms.signFromSeedObj H seed
+      = Model.KeyForms.signSeedKeypairInplace H (zeros 32) (zeros 64) (seed.take 32) :=
+  Proofs.KeyFormsSeed.signFromSeedObj_eq_inplace H seed h
+
+example (H : Bytes → Bytes) : Model.KeyForms.signFromSeedObj H (zeros 31) = .panic ∧ 32 ≤ (zeros 33).length :=
+  ⟨(signFromSeedObj_cases H _).1.2 (by decide), by decide⟩
+
+/-! #### password-hash, key-derivation and session objects (`Model/EncodingObj.lean`) -/
+
+section Objects
+open DryocVerif.Model.EncodingObj
+
+/-- **`de ∘ ser = id` on `PwHash<Hash, Salt>`** for every kind of `Hash` / `Salt` container and both formats (through
+the format's rendering); `Config` = variant index + four integers.  `inRange`: the integers fit `usize` / `u64`. -/
+theorem dePwK_serPwK' (kH kS : Kind) (sd : Bool) (p : PwObj) (h : p.config.inRange) :
+    dePwK kH kS sd (serPwK' kH kS sd p) = .ok p :=
+  Proofs.EncodingObjExtra.dePwK_serPwK' kH kS sd p h
+
+/-- the default `VecPwHash` -/
+theorem dePw_serPw (sd : Bool) (p : PwObj) (h : p.config.inRange) : dePw sd (serPw sd p) = .ok p :=
+  Proofs.EncodingObjExtra.dePw_serPw sd p h
+
+/-- non-vacuity: the configuration the runner uses (`interactive`, opslimit 1, memlimit 8192) is in range, and the
+object round-trips in both formats -/
+example : (⟨.argon2id13, 32, 8192, 1, 16⟩ : Config).inRange ∧
+    dePw true (serPw true ⟨[1, 2], [3], ⟨.argon2id13, 32, 8192, 1, 16⟩⟩) = .ok ⟨[1, 2], [3], ⟨.argon2id13, 32, 8192, 1, 16⟩⟩ ∧
+    dePw false (serPw false ⟨[1, 2], [3], ⟨.argon2i13, 32, 8192, 1, 16⟩⟩) = .ok ⟨[1, 2], [3], ⟨.argon2i13, 32, 8192, 1, 16⟩⟩ := by
+  decide
+
+/-- exact success condition of the derived `Deserialize for Config`: a known variant and four in-range integers —
+NOTHING else; never a panic -/
+theorem deConfig_ok_iff (e : EncConfig) (c : Config) :
+    (deConfig e = .ok c ↔ e = serConfig c ∧ c.inRange) ∧ deConfig e ≠ .panic :=
+  ⟨Proofs.EncodingObjExtra.deConfig_ok_iff e c, Proofs.EncodingObjExtra.deConfig_never_panics e⟩
+
+/-- an unknown algorithm variant and an out-of-range integer are refused -/
+example : deConfig ⟨2, 32, 8192, 1, 16⟩ = .err ∧ deConfig ⟨1, 2 ^ 64, 8192, 1, 16⟩ = .err ∧
+    deConfig ⟨1, 32, 8192, 1, 16⟩ = .ok ⟨.argon2id13, 32, 8192, 1, 16⟩ := by decide
+
+/-- **a decoded `Config` is NOT validated**: some encoding decodes (in either format) to an object whose
+`hash_length` ≠ the length of its hash, whose `salt_length` ≠ the length of its salt, and whose `opslimit` and
+`memlimit` are 0 — values `crypto_pwhash` itself refuses.  (What `PwHash::verify` does with such an object is outside
+C16: the password-hash API properties.) -/
+theorem dePw_accepts_inconsistent_config (sd : Bool) :
+    ∃ (e : EncPw) (p : PwObj), dePw sd e = .ok p ∧ p.config.hashLength ≠ p.hash.length ∧
+      p.config.saltLength ≠ p.salt.length ∧ p.config.opslimit = 0 ∧ p.config.memlimit = 0 :=
+  Proofs.EncodingObjExtra.dePw_accepts_inconsistent_config sd
+
+/-- **`de ∘ ser = id` on `Kdf<Key, Context>`** (32-byte main key, 8-byte context), by container kind … -/
+theorem deKdfK_serKdfK' (kK kC : Kind) (sd : Bool) (o : KdfObj) (h1 : kK ≠ .vec → o.mainKey.length = 32)
+    (h2 : kC ≠ .vec → o.context.length = 8) : deKdfK kK kC sd (serKdfK' kK kC sd o) = .ok o :=
+  Proofs.EncodingObjExtra.deKdfK_serKdfK' kK kC sd o h1 h2
+
+/-- … and for `StackKdf` / `LockedKdf`, with the exact success condition on arbitrary field encodings -/
+theorem deKdf_serKdf (sd : Bool) (o : KdfObj) (h1 : o.mainKey.length = 32) (h2 : o.context.length = 8) :
+    deKdf sd (serKdf sd o) = .ok o :=
+  Proofs.EncodingObjExtra.deKdf_serKdf sd o h1 h2
+
+theorem deKdf_ok_iff (sd : Bool) (e : EncKdf) (o : KdfObj) :
+    deKdf sd e = .ok o ↔ e.mainKey.payload.length = 32 ∧ e.context.payload.length = 8 ∧
+      o = ⟨e.mainKey.payload, e.context.payload⟩ :=
+  Proofs.EncodingObjExtra.deKdf_ok_iff sd e o
+
+/-- **`de ∘ ser = id` on kx `Session<SessionKey>`** (two 32-byte keys in the same kind of container) -/
+theorem deSessionK_serSessionK' (k : Kind) (sd : Bool) (o : SessionObj) (h1 : k ≠ .vec → o.rxKey.length = 32)
+    (h2 : k ≠ .vec → o.txKey.length = 32) : deSessionK k sd (serSessionK' k sd o) = .ok o :=
+  Proofs.EncodingObjExtra.deSessionK_serSessionK' k sd o h1 h2
+
+theorem deSession_serSession (sd : Bool) (o : SessionObj) (h1 : o.rxKey.length = 32) (h2 : o.txKey.length = 32) :
+    deSession sd (serSession sd o) = .ok o :=
+  Proofs.EncodingObjExtra.deSession_serSession sd o h1 h2
+
+theorem deSession_ok_iff (sd : Bool) (e : EncSession) (o : SessionObj) :
+    deSession sd e = .ok o ↔ e.rxKey.payload.length = 32 ∧ e.txKey.payload.length = 32 ∧
+      o = ⟨e.rxKey.payload, e.txKey.payload⟩ :=
+  Proofs.EncodingObjExtra.deSession_ok_iff sd e o
+
+/-- non-vacuity: a kdf object and a session round-trip in JSON and bincode; a 7-byte context / 31-byte key is refused -/
+example : deKdf true (serKdf true ⟨zeros 32, zeros 8⟩) = .ok ⟨zeros 32, zeros 8⟩ ∧
+    deKdf false (serKdf false ⟨zeros 32, zeros 8⟩) = .ok ⟨zeros 32, zeros 8⟩ ∧
+    deKdf true ⟨.seq (zeros 32), .seq (zeros 7)⟩ = .err ∧
+    deSession true (serSession true ⟨zeros 32, zeros 32⟩) = .ok ⟨zeros 32, zeros 32⟩ ∧
+    deSession false ⟨.bytes (zeros 31), .bytes (zeros 32)⟩ = .err := by decide
+
+/-- **`from_parts` / `into_parts` of `PwHash` and `Kdf`, `into_parts` of `Session`, the public fields of the key
+pairs** — all BY `rfl`: the parts are moved in and out, nothing is examined (so `from_parts`, like serde, builds a
+`PwHash` with any `Config` and a `Kdf<Vec<u8>, Vec<u8>>` with a key / context of any length).  `Session` has no public
+`from_parts`: `sessionFromParts` is the struct literal its constructors end with. -/
+theorem objFromParts_intoParts (p : PwObj) (hash salt : Bytes) (c : Config) (o : KdfObj) (k ctx : Bytes)
+    (s : SessionObj) (rx tx : Bytes) (kp : Bytes × Bytes) :
+    pwFromParts (pwIntoParts p).1 (pwIntoParts p).2.1 (pwIntoParts p).2.2 = p ∧
+    pwIntoParts (pwFromParts hash salt c) = (hash, salt, c) ∧
+    kdfFromParts (kdfIntoParts o).1 (kdfIntoParts o).2 = o ∧ kdfIntoParts (kdfFromParts k ctx) = (k, ctx) ∧
+    sessionFromParts (sessionIntoParts s).1 (sessionIntoParts s).2 = s ∧
+    sessionIntoParts (sessionFromParts rx tx) = (rx, tx) ∧
+    pairFromParts (pairIntoParts kp).1 (pairIntoParts kp).2 = kp :=
+  ⟨rfl, rfl, rfl, rfl, rfl, rfl, rfl⟩
+
+end Objects
 
 end VecContainers
 
@@ -570,4 +811,28 @@ open DryocVerif.Properties.C16
 #print axioms dePair_ok_iff
 #print axioms deLockedArrOld_short_accepts
 #print axioms deLockedArrOld_long_panics
+#print axioms deBoxK_serBoxK'
+#print axioms deSignedK_serSignedK'
+#print axioms dePairK_serPairK'
+#print axioms serField'_cases
+#print axioms deArray_ok_iff
+#print axioms json_routes
+#print axioms deJson_value_str_err
+#print axioms fromSlices_typed_ok_iff
+#print axioms fromSlices_typed_err_iff
+#print axioms fromSlices_vec_not_strict
+#print axioms fromSlices_array_eq
+#print axioms signFromSeedObj_cases
+#print axioms signFromSeedObj_eq_inplace
+#print axioms dePwK_serPwK'
+#print axioms dePw_serPw
+#print axioms deConfig_ok_iff
+#print axioms dePw_accepts_inconsistent_config
+#print axioms deKdfK_serKdfK'
+#print axioms deKdf_serKdf
+#print axioms deKdf_ok_iff
+#print axioms deSessionK_serSessionK'
+#print axioms deSession_serSession
+#print axioms deSession_ok_iff
+#print axioms objFromParts_intoParts
 end AxiomCheck
